@@ -3,7 +3,7 @@ from vlib import g1check
 
 PROPERTY = "C02"
 LEVEL = "exploration"
-RULE = ("(Among the class managers: one whose plain-def __aexit__ probes and then returns another manager's __aexit__ coroutine - the exit CALL has returned while the exit is still awaited.) Same generated program space as C01 (G1 with-programs + the systematic exit-shape table), for plain functions, "
+RULE = ("(Also between calls: an opcode-level trace function inspects the frame whenever its next instruction is a backward jump - the back edge of a loop, where signals are handled and threads switched.) (Among the class managers: one whose plain-def __aexit__ probes and then returns another manager's __aexit__ coroutine - the exit CALL has returned while the exit is still awaited.) Same generated program space as C01 (G1 with-programs + the systematic exit-shape table), for plain functions, "
         "generators, coroutines and async generators; the frame under test is inspected WHILE RUNNING through "
         "extract_since(frame) called from nested code: from probe calls in the body and from inside every "
         "__enter__/__exit__/__aenter__/__aexit__ (before and after their own suspension), on CPython 3.9-3.12. Oracle: the "
@@ -17,7 +17,7 @@ ASSUMPTIONS = [
 
 CFG = {
     "module": "checks.c02",
-    "modes": ["run"],
+    "modes": ["run", "opjump"],
     "prog_kinds": ["gen", "coro", "agen", "func"],
     "kinds_violation": ["run."],
 }
